@@ -418,10 +418,20 @@ fn option_vectors(thorough: bool) -> Vec<Opts> {
 }
 
 pub fn run(args: &Args, rep: &mut Report) {
-    rep.set_meta("rule", json!("every sub-multiset (size<=k) of 16 boundary-dense instants x 3 zones x option vectors (each counter in {-1,0,1,2,3}, each within in 6 spans, pairs), plus tag/id/delete-mark slices and a delete-unchanged slice (two trees x four marks per snapshot); a case is non-trivial when the reference keeps some but not all snapshots; distinct = distinct (decision vector, option, multiset) triples"));
+    rep.set_meta("rule", json!("every sub-multiset (size<=k) of 16 boundary-dense instants x 3 zones x option vectors (each counter in {-1,0,1,2,3}, each within in 6 spans, pairs), plus tag/id/delete-mark slices and a delete-unchanged slice (two trees x four marks per snapshot); a grouping slice (every assignment of host/label/paths/tags to 3-4 snapshots x every criterion subset x input order); a case is non-trivial when the reference keeps some but not all snapshots; distinct = distinct (decision vector, option, multiset) triples"));
     if let Some(p) = &args.replay {
         let v: Value = serde_json::from_str(&std::fs::read_to_string(p).unwrap()).unwrap();
         let c = &v["case"];
+        if c["slice"].as_str() == Some("grouping") {
+            // the whole (cheap) slice is re-run
+            let mut a2 = args.clone();
+            a2.replay = None;
+            a2.shard = 0;
+            a2.nshards = 1;
+            let mut i = 0usize;
+            grouping_slice(rep, &a2, &mut i);
+            return;
+        }
         let snaps: Vec<Snap> = c["snaps"]
             .as_array()
             .unwrap()
@@ -633,6 +643,110 @@ pub fn run(args: &Args, rep: &mut Report) {
                     let sig = format!("C09/delete-unchanged/{}", o.sig());
                     if !rep.has_violation(&sig) {
                         rep.violation(sig, m, case_json(&snaps, 0, o));
+                    }
+                }
+            }
+        }
+    }    grouping_slice(rep, args, &mut idx);
+}
+
+/// Grouping: the keep rules are evaluated per group of snapshots agreeing in the selected criteria.
+/// Every assignment of (host, label, paths, tags) from small alphabets to 3 (thorough: 4 with a
+/// reduced alphabet) snapshots at distinct instants x every subset of the four criteria x both
+/// input orders, under keep-last 1: the kept set must be the newest snapshot of every true group.
+fn grouping_slice(rep: &mut Report, args: &Args, idx: &mut usize) {
+    use rustic_core::{ForgetGroups, Grouped, SnapshotGroupCriterion};
+    let now = now();
+    let hosts = ["h1", "h2"];
+    let labels = ["", "l"];
+    let paths = ["/p1", "/p2"];
+    let tags = ["", "db", "www"];
+    let attr = |code: usize| -> (usize, usize, usize, usize) { (code % 2, code / 2 % 2, code / 4 % 2, code / 8 % 3) };
+    let n_attr = 24usize;
+    let mut keep = KeepOptions::default();
+    keep.keep_last = Some(1);
+    let ns: &[usize] = if args.quick() { &[3] } else { &[3, 4] };
+    for &n in ns {
+        let combos = if n == 3 { n_attr.pow(3) } else { 6usize.pow(4) };
+        for code in 0..combos {
+            *idx += 1;
+            if !args.mine(*idx) {
+                continue;
+            }
+            let mut c = code;
+            let mut files: Vec<SnapshotFile> = Vec::new();
+            let mut attrs: Vec<(usize, usize, usize, usize)> = Vec::new();
+            for p in 0..n {
+                let a = if n == 3 {
+                    let a = attr(c % n_attr);
+                    c /= n_attr;
+                    a
+                } else {
+                    // reduced alphabet: host x tags only
+                    let k = c % 6;
+                    c /= 6;
+                    (k % 2, 0, 0, k / 2)
+                };
+                let mut sn = SnapshotFile::default();
+                sn.time = instant(p * (INSTANTS.len() - 1) / 4).to_zoned(zone(0));
+                sn.id = format!("{:02x}", 0x40 + p).repeat(32).parse().unwrap();
+                sn.hostname = hosts[a.0].to_string();
+                sn.label = labels[a.1].to_string();
+                sn.paths = StringList::from_str(paths[a.2]).unwrap();
+                if !tags[a.3].is_empty() {
+                    sn.tags = StringList::from_str(tags[a.3]).unwrap();
+                }
+                files.push(sn);
+                attrs.push(a);
+            }
+            for crit_bits in 0..16usize {
+                let mut crit = SnapshotGroupCriterion::new();
+                crit.hostname = crit_bits & 1 != 0;
+                crit.label = crit_bits & 2 != 0;
+                crit.paths = crit_bits & 4 != 0;
+                crit.tags = crit_bits & 8 != 0;
+                // reference: newest snapshot of every group of equal selected attributes
+                let key = |a: &(usize, usize, usize, usize)| (if crit.hostname { a.0 } else { 9 }, if crit.label { a.1 } else { 9 }, if crit.paths { a.2 } else { 9 }, if crit.tags { a.3 } else { 9 });
+                let mut expect: Vec<bool> = vec![false; n];
+                for p in 0..n {
+                    expect[p] = !(p + 1..n).any(|q| key(&attrs[q]) == key(&attrs[p]));
+                }
+                for reversed in [false, true] {
+                    rep.inc("cases");
+                    rep.inc("cases_grouping");
+                    let mut input = files.clone();
+                    if reversed {
+                        input.reverse();
+                    }
+                    let groups = Grouped::from_items(input, crit);
+                    let ngroups = groups.groups.len();
+                    let got = match ForgetGroups::from_grouped_snapshots_with_retention(groups, &keep, &now) {
+                        Ok(g) => g,
+                        Err(e) => {
+                            rep.violation("C09/grouping/error".to_string(), e.display_log(), json!({"slice": "grouping", "n": n, "code": code, "criterion": crit_bits, "reversed": reversed}));
+                            continue;
+                        }
+                    };
+                    let mut keptv = vec![false; n];
+                    for g in &got.0 {
+                        for fs in &g.items {
+                            let p = files.iter().position(|f| f.id == fs.snapshot.id).unwrap();
+                            keptv[p] = fs.keep;
+                        }
+                    }
+                    let true_groups = { let mut k: Vec<_> = attrs.iter().map(key).collect(); k.sort_unstable(); k.dedup(); k.len() };
+                    if true_groups > 1 && true_groups < n {
+                        _ = rep.distinct("nontrivial", &("grouping", n, code, crit_bits));
+                    }
+                    if keptv != expect || ngroups != true_groups {
+                        let sig = "C09/grouping".to_string();
+                        if !rep.has_violation(&sig) {
+                            rep.violation(
+                                sig,
+                                format!("attributes (host,label,paths,tags) {attrs:?} oldest first, criterion bits {crit_bits:04b}, reversed input {reversed}: {ngroups} groups (expected {true_groups}), kept {keptv:?}, expected {expect:?}"),
+                                json!({"slice": "grouping", "n": n, "code": code, "criterion": crit_bits, "reversed": reversed}),
+                            );
+                        }
                     }
                 }
             }
